@@ -5,6 +5,7 @@
 #include "art_common.hpp"
 #include "art_internal.hpp"
 #include <cstring>
+#include <string_view>
 using namespace unodb;
 static constexpr std::size_t TERM = 1 + sizeof(key_encoder::size_type);
 static int kcmp(key_view a, key_view b) { return sgn(detail::compare(a, b)); }
@@ -42,7 +43,7 @@ HARNESS(h_text_boundary) {
   }
   key_encoder e1, e2;
   e1.encode_text(std::span<const std::byte>(reinterpret_cast<const std::byte*>(tb1), n1));
-  e2.encode_text(std::span<const std::byte>(reinterpret_cast<const std::byte*>(tb2), n2));
+  e2.encode_text(std::string_view(reinterpret_cast<const char*>(tb2), n2));      // the second text goes through the string_view overload: both must agree
   key_view k1 = e1.get_key_view(), k2 = e2.get_key_view();
   PROP(k1.size() == m1 + TERM && k2.size() == m2 + TERM, "C15: text@maxlen: emits at most maxlen bytes plus the terminator");
   PROP(k1.size() <= M + TERM, "C15: text@maxlen: output bounded by maxlen+terminator");
@@ -81,6 +82,9 @@ HARNESS(h_text_readlimit) {
   e.encode_text(std::span<const std::byte>(reinterpret_cast<const std::byte*>(exact), n));
   std::size_t m = norm_len(exact, M);
   PROP(e.size_bytes() == m + TERM, "C15: text: input longer than maxlen is cut to maxlen");
+  key_encoder es;
+  es.encode_text(std::string_view(reinterpret_cast<const char*>(exact), n));
+  PROP(es.size_bytes() == m + TERM, "C15: text: input longer than maxlen is cut to maxlen (string_view overload)");
   OBSERVE(e.size_bytes());
   WITNESS();
 }
